@@ -26,6 +26,30 @@ from ..terms import T, V, vconst
 FLOOR = 24
 
 
+def _pair_order(t):
+    """order of the table of pairwise displacements inside a value: 'X-major' (row i * nY + j holds X[i] - Y[j]),
+    'Y-major', or None when no pair table is found.  Read off the unit axes that broadcasting gave the two operands
+    (the normal form forgets them on purpose, so this is a separate, structural obligation)."""
+    from .. import tq as _tq
+    from ..terms import const as _c
+
+    found = set()
+    for x in _tq.walk_all(t):
+        if x.op == "reshape1" and len(x.args) == 4:
+            hasx, hasy = _tq.has_sym(x.args[0], "X"), _tq.has_sym(x.args[0], "Y")
+            if hasx == hasy:
+                continue
+            lead_unit, second_unit = x.args[1] == _c(1), x.args[2] == _c(1)
+            if lead_unit == second_unit:
+                continue
+            # the operand that varies along the leading axis is the major one
+            major = ("X" if hasx else "Y") if second_unit else ("Y" if hasx else "X")
+            found.add(major + "-major")
+    if len(found) == 1:
+        return next(iter(found))
+    return None if not found else "mixed"
+
+
 def check(ctx):
     # positional parameters keep their documented positions (a reordering survives every keyword call)
     from ..sigrules import signatures as _signatures
@@ -71,6 +95,8 @@ def check(ctx):
             ctx.compare("NF-DIST" if not cell_on else "R-WRAP", f"periodic_pairwise_euclidean_distances == reference [{cfg}]", N, r, ref, site, cfg)
             ctx.no_shape_conflicts("Shape", f"periodic_pairwise_euclidean_distances [{cfg}]", I, 0, site, cfg)
             ctx.shape_is("Shape", f"euclidean result is (nX, nY) [{cfg}]", r, ("nX", "nY"), site, cfg)
+            if cell_on:
+                ctx.ob("NF-DIST", f"the table of displacements is X-major, as the final reshape to (nX, nY) assumes [{cfg}]", _pair_order(r.term) == "X-major", f"pair table: {_pair_order(r.term)}", site, cfg)
             muts = [e for e in I.events if e["kind"] == "mutate" and any(o_[0] == "in" for o_ in e["target"].orig)]
             ctx.ob("R-PURE", f"euclidean leaves X, Y, cell untouched [{cfg}]", not muts, f"{[e['src'] for e in muts]}", site, cfg, nontrivial=False)
             for stack in (False, True):
@@ -84,6 +110,7 @@ def check(ctx):
                 ctx.compare("NF-DIST" if not cell_on else "R-WRAP", f"pairwise_mahalanobis_distances == reference [{cfg2}]", N, r, ref, site, cfg2)
                 ctx.no_shape_conflicts("Shape", f"pairwise_mahalanobis_distances [{cfg2}]", I, 0, site, cfg2)
                 ctx.shape_is("Shape", f"mahalanobis result is ({'C' if stack else '1'}, nX, nY) [{cfg2}]", r, ("C" if stack else 1, "nX", "nY"), site, cfg2)
+                ctx.ob("NF-DIST", f"the table of displacements is X-major, as the final reshape to (., nX, nY) assumes [{cfg2}]", _pair_order(r.term) == "X-major", f"pair table: {_pair_order(r.term)}", site, cfg2)
     # sibling agreement of the wrap (same map, same guard), read off the two functions directly
     X, Y, cell = arr("X", "nX", "D"), arr("Y", "nY", "D"), arr("cell", "D")
     I, st = ctx.interp(), State()
@@ -100,6 +127,14 @@ def check(ctx):
     c = ctx.call_func(I3, s3, "ref.controls.wrap_floor", arr("d", "K", "D"), cell)
     ctx.ob("R-WRAP", "control: floor(d/c + 1/2) is accepted as the nearest-image map", N.nf(a.term) == N.nf(b.term), "normal forms equal", "ref/controls.py", nontrivial=False)
     ctx.ob("R-WRAP", "control: plain floor(d/c) is not", N.nf(c.term) != N.nf(b.term), "normal forms differ", "ref/controls.py", nontrivial=False)
+    # controls for the order of the pair table (construction order is part of NF-DIST)
+    Xc, Yc = arr("X", "nX", "D"), arr("Y", "nY", "D")
+    vals = {}
+    for fn_ in ("pair_differences_rows", "pair_differences_stacked", "pair_differences_other_order"):
+        Ic, sc = ctx.interp(), State()
+        vals[fn_] = ctx.call_func(Ic, sc, "ref.controls." + fn_, Xc, Yc)
+    ctx.ob("NF-DIST", "control: the pair table stacked along axis 1 and flattened is the X-major table", N.nf(vals["pair_differences_rows"].term) == N.nf(vals["pair_differences_stacked"].term), "normal forms equal", "ref/controls.py", nontrivial=False)
+    ctx.ob("NF-DIST", "control: the order of a pair table is read off its operands (X-major / stacked: X-major / the other order: Y-major)", [_pair_order(vals[k_].term) for k_ in ("pair_differences_rows", "pair_differences_stacked", "pair_differences_other_order")] == ["X-major", "X-major", "Y-major"], f"{[_pair_order(v_.term) for v_ in vals.values()]}", "ref/controls.py", nontrivial=False)
     # R-DIMCHECK
     for f, args in ((fe, lambda X, Y, c: ((X, Y), {"cell_length": c})), (fm, lambda X, Y, c: ((X, Y, arr("cov_inv", "D", "D"), c), {}))):
         X, Y, cell = arr("X", "nX", "D"), arr("Y", "nY", "D"), arr("cell", "D2")
